@@ -1,6 +1,8 @@
 """C05 - segment names stay unique; name-addressed edits touch only their target."""
 import copy
 
+import numpy as np
+
 from .common import BASES, FUNCS, PARAMS, basename, uniquify, rnd_args
 
 ID = "C05"
@@ -306,3 +308,81 @@ def nontrivial_key(case, impl):
     if shared and acc and rej:
         return (tuple(o[0] for o in prog), final)
     return None
+
+
+# ---------------------------------------------------------------- same-named function families (implementation only)
+def _family():
+    """Pulse functions of 1, 2 and 4 user arguments produced by ONE factory: distinct functions that share their
+    __name__ / __qualname__ (what a user gets from a shape factory or from lambdas defined in one scope).  Each writes
+    its arguments into its first samples, so a forge shows which argument an edit reached."""
+    def make(params):
+        src = f"def shape({', '.join(params)}, SR, npts):\n    out = np.zeros(int(npts)); out[:{len(params)}] = [{', '.join(params)}]; return out\n"
+        ns = {"np": np}
+        exec(src, ns)          # noqa: S102 - fixed text above
+        return ns["shape"]
+    return {1: (make(["level"]), ["level"]), 2: (make(["start", "stop"]), ["start", "stop"]),
+            3: (make(["stop", "start"]), ["stop", "start"]), 4: (make(["p", "q", "r", "s"]), ["p", "q", "r", "s"])}
+
+
+def extra_checks(ctx):
+    """changeArg by name / position on blueprints whose segments use same-named functions with different parameter
+    lists: exactly the addressed argument of exactly the addressed segment changes (checked on the forged samples and
+    on the description); an argument name the function does not have is rejected and changes nothing."""
+    import random
+    from broadbean.blueprint import BluePrint
+    rng = random.Random(ctx["seed"] + 5)
+    fam = _family()
+    n_hist = 25 if ctx["tier"] == "quick" else 600
+    evals, fails = 0, []
+    for h in range(n_hist):
+        bp = BluePrint()
+        bp.setSR(100)
+        segs = []                  # mirror: [name, params, values]
+        for k in range(rng.randint(2, 5)):
+            key = rng.choice(sorted(fam))
+            f, params = fam[key]
+            vals = [float(rng.randint(1, 9)) for _ in params]
+            name = f"s{chr(97 + k)}"
+            bp.insertSegment(-1, f, tuple(vals), name=name, dur=0.08)
+            segs.append([name, params, vals])
+        hist = []
+        for _step in range(rng.randint(2, 8)):
+            tgt = rng.randrange(len(segs))
+            name, params, vals = segs[tgt]
+            others = sorted({p for _n, ps, _v in segs for p in ps} - set(params))
+            if rng.random() < 0.2 and others:
+                arg, ok = rng.choice(others), False        # a name only the sibling functions have
+            elif rng.random() < 0.3:
+                arg, ok = rng.randrange(len(params)), True
+            else:
+                arg, ok = rng.choice(params), True
+            new = float(rng.randint(10, 99))
+            hist.append((name, arg, new))
+            try:
+                bp.changeArg(name, arg, new)
+                raised = None
+            except Exception as e:  # noqa: BLE001
+                raised = type(e).__name__
+            evals += 1
+            if ok:
+                vals[arg if isinstance(arg, int) else params.index(arg)] = new
+            if ok and raised:
+                fails.append(f"changeArg({name!r}, {arg!r}, {new}) raised {raised} although the segment's function has that argument (history {hist})")
+                break
+            if not ok and not raised:
+                fails.append(f"changeArg({name!r}, {arg!r}, {new}) was accepted although the segment's function has no such argument (history {hist})")
+                break
+            from broadbean.blueprint import _subelementBuilder
+            wfm = _subelementBuilder(bp, bp.SR, bp.durations)["wfm"]
+            got = [list(wfm[8 * i:8 * i + len(s[1])]) for i, s in enumerate(segs)]
+            want = [s[2] for s in segs]
+            desc = bp.description
+            dgot = [list(desc[f"segment_{i + 1:02d}"]["arguments"].values()) for i in range(len(segs))]
+            if got != want or dgot != want:
+                fails.append(f"after changeArg({name!r}, {arg!r}, {new}) the segments' arguments are {got} (description {dgot}), "
+                             f"expected {want}: functions of one family (same __qualname__) with parameters "
+                             f"{[s[1] for s in segs]} (history {hist})")
+                break
+    for f in fails[:2]:
+        ctx["report"]("same-named function family: " + f[:300], {"family_failure": f}, True)
+    return {"evaluations": evals, "distinct_nontrivial": n_hist, "samples": [{"family_histories": n_hist}]}
